@@ -1170,7 +1170,7 @@ var lcTable = []lcMap{
 	{'\u1FFA', '\u1FFB', LowercaseAdd, -126},
 	{'\u1FFC', '\u1FFC', LowercaseSet, 0x1FF3},
 	{'\u2160', '\u216F', LowercaseAdd, 16},
-	{'\u24B6', '\u24D0', LowercaseAdd, 26},
+	{'\u24B6', '\u24CF', LowercaseAdd, 26}, // circled capitals A-Z (U+24D0 is the first circled small letter)
 	{'\uFF21', '\uFF3A', LowercaseAdd, 32},
 }
 
